@@ -55,10 +55,15 @@ CHECKS = {
         technique='TLA+ abstract heap (XoHeap.tla) + format operators (XoLayout.tla); TLC trace validation (XoHeapTrace.tla) of recorded real executions with Decode/WF evaluated by TLC on the real buffer bytes',
         text="ErrOp: for every misuse class of the statement (index beyond / negative, update of other length or shape, text longer than the string's box, nested item needing more room, non-member for a union, buffer of another context, offset without buffer) the real call must raise and TLC requires every existing object to still decode to its abstract value.",
         note="trusted: TLC; the harness's recording of byte diffs, allocate/free logs and accessor read-backs (vlib/world.py); NumPy/UTF-8 encodings (values compared as byte strings); histories are generated pseudo-randomly plus a systematic sweep of axis orders (not exhaustive); 64-bit words decoded within +-2^23"),
+    "C20": dict(
+        engine="heap", category="model_checking", design_ref="2 / C20",
+        technique="TLA+ abstract heap (XoHeap.tla) with a Pickle step (twin relation closed along references) + TLC trace validation of real pickle round trips with Decode on the real bytes of the unpickled buffers",
+        text="Groups of struct, array and hybrid objects (with references, several per buffer, several buffers and buffer kinds) are pickled together and unpickled; TLC extends the old-object -> twin relation along references using Decode on the bytes of the NEW buffers and requires: equal values, equal null-ness/member of every reference, the relation to be a bijection (what was shared is shared, nothing merged), objects that shared a buffer share one afterwards, fresh buffers; then reads through the unpickled handles (and hybrid attributes), assignments on both sides (independence) and new allocations in the unpickled buffer (no overlap with its live regions) continue as ordinary steps of the heap machine.",
+        note="trusted: TLC; harness recording; generated classes are made importable through a synthetic module registered in sys.modules (same-process pickle round trip); histories pseudo-random"),
 }
 
 # registry.d/<ID>.json entries (written by engine authors) are claimed only once the coordinator has seen the check
 # quiet on the unchanged tree and firing on a seeded defect
-READY_D = {"C14"}
+READY_D = {"C14", "C17"}
 
 NOT_YET = {}
